@@ -153,11 +153,11 @@ def run_cli(argv, stdin_bytes=None, interrupt_after=None):
     for k in saved_names:
         setattr(cmd, k, fake_sleep)
     out, err = io.StringIO(), io.StringIO()
-    old_stdin = aio.sys.stdin
+    old_stdin = sys.stdin
     if stdin_bytes is not None:
         class FakeStdin:
             buffer = io.BytesIO(stdin_bytes)
-        aio.sys.stdin = FakeStdin
+        sys.stdin = FakeStdin
     status = None
     exc = None
     import signal
@@ -184,7 +184,7 @@ def run_cli(argv, stdin_bytes=None, interrupt_after=None):
         _time.sleep = real_sleep
         for k, v in saved_names.items():
             setattr(cmd, k, v)
-        aio.sys.stdin = old_stdin
+        sys.stdin = old_stdin
     # leftover threads (a failure path that did not stop them): give them a moment, report them, then stop them
     deadline = _time.time() + 1.0
     while len(threading.enumerate()) > 1 and _time.time() < deadline:
